@@ -45,11 +45,11 @@ What the model demands, and why (property text / docstring):
 
 Tolerances (relative to max(1, max|model|)):
   TOL_SINGLE = 2e-4  float32/complex64 results of bin / fourier_resample. Worst deviation observed on
-               the unchanged tree over seeds {0,1,2,7,12345}, both tiers: 2.4e-6 (x83 margin); smallest
+               the unchanged tree over seeds {0,1,2,7,12345}, both tiers: 2.0e-6 (x100 margin); smallest
                mutant effect on data is O(0.1) (a dropped remainder element, a wrong block volume).
-  TOL_DOUBLE = 1e-9  float64/complex128 results; worst observed 3.6e-15.
-  TOL_CAL    = 1e-9  calibration entries; worst observed 4.5e-16; smallest mutant effect 0.125
-               (origin shift 0.5*(2-1)*0.25).
+  TOL_DOUBLE = 1e-9  float64/complex128 results; worst observed 7.4e-15.
+  TOL_CAL    = 1e-9  calibration entries, relative to 1+|expected|; worst observed 1.3e-15; smallest
+               mutant effect 0.125 (origin shift 0.5*(2-1)*0.25).
   Everything else (indexing, pad, crop, copy, setters, in-place vs copying) is compared exactly.
 The worst deviations of every run are written into the evidence (coverage.worst_deviation).
 """
@@ -1193,9 +1193,7 @@ def run_history(init_i, seed, hist, fails_out, verbose=False):
 
 
 def run(ctx):
-    from collections import Counter
-
-    L = lib()
+    lib()
     cfg = tier_config(ctx.tier)
     reg0 = registry_snapshot()
     if reg0 is None:
@@ -1304,7 +1302,7 @@ def _explore(ctx, cfg, items, parent, parent_dev, root_digests, sizes, side):
         ditems.sort(key=lambda it: (it[0] == "dev0", -(it[2] if it[0] == "dev" else 0), -len(INITIALS[it[1]][1]), it[3] if it[0] == "dev" else 0))
         dm = ctx.pmap(shard, ditems, chunk=1, label="deviation histories", seed=ctx.seed, cfg=cfg, scratch=side)
         extra.update(dm.extra)
-        if dm.extra["dev_histories"] != nhist_expected:
+        if dm.extra["dev_histories"] != nhist_expected and not ctx.tally.nfails:
             raise Broken(f"deviation histories executed {dm.extra['dev_histories']} != enumerated space {nhist_expected}")
         dev_cov = {
             "length": DEV_LEN, "max_deviations": {"initials_with_b2": [list(map(str, INITIALS[i])) for i in two], "all_other_initials": 1},
@@ -1358,6 +1356,7 @@ def _explore(ctx, cfg, items, parent, parent_dev, root_digests, sizes, side):
     )
     if dev_cov:
         ctx.coverage["deviation_histories"] = dev_cov
+    ctx.say(f"worst deviations: single-precision data {worst[0]:.3g} (tol {TOL_SINGLE:g}), double-precision data {worst[1]:.3g} (tol {TOL_DOUBLE:g}), calibration {worst[2]:.3g} (tol {TOL_CAL:g})")
     if extra.get("states_skipped_changed_after_creation", 0) and not ctx.tally.nfails:
         raise Broken("states changed after their creation although no operation was seen to modify its source")
     # vacuity guards
